@@ -407,3 +407,87 @@ Section SameVector.
       apply H3. exact Hz1.
   Qed.
 End SameVector.
+
+(* ---------- self-assignment and self-swap: v[i] = v[i], v[i] = std::move(v[i]), swap(v[i], v[i]) ----------
+   Both references are the same element of the same memory: every step reads bytes and writes
+   them back where they came from (the move form does not scribble a self-moved object), so
+   no byte changes - whatever the field table, whatever the run table. *)
+Section Self.
+  Definition selfinv (m : mem) (x : mm) : Prop :=
+    m_same x = true /\ (forall z, m_s x z = m_d x z) /\ (forall z, m_d x z = m z).
+
+  Lemma self_wr m x a n : selfinv m x -> selfinv m (wr_d x a (mread (m_s x) a n)).
+  Proof.
+    intros (Hs & Hsd & Hm). unfold selfinv, wr_d. rewrite Hs. cbn [m_s m_d m_same].
+    repeat split; intros z. rewrite (mwrite_mread_at (m_s x) a (m_d x) a n z ltac:(lia)).
+    destruct (inr a (Z.of_nat n) z); [|apply Hm]. replace (z - a + a) with z by lia. rewrite Hsd. apply Hm.
+  Qed.
+
+  Lemma self_assign_objs mv p sb db m : forall n x a, selfinv m x ->
+    selfinv m (fst (assign_objs mv p sb db x a a n)).
+  Proof.
+    induction n as [|n IH]; intros x a Hx; [exact Hx|]. cbn [assign_objs].
+    pose proof (self_wr m x a (Z.to_nat (psz p)) Hx) as H1.
+    destruct Hx as (Hs & _). rewrite Hs, Z.eqb_refl. cbn [andb negb]. rewrite andb_false_r.
+    specialize (IH _ (a + psz p) H1).
+    destruct (assign_objs mv p sb db (wr_d x a (mread (m_s x) a (Z.to_nat (psz p)))) (a + psz p) (a + psz p) n) as [x3 e3].
+    exact IH.
+  Qed.
+
+  Lemma self_assign_all mv L sb db fl m : forall ks x, selfinv m x ->
+    selfinv m (fst (assign_all mv L sb db fl fl x ks)).
+  Proof.
+    induction ks as [|k ks IH]; intros x Hx; [exact Hx|]. cbn [assign_all].
+    assert (H1 : selfinv m (fst (assign_one mv L sb db fl fl x k))).
+    { unfold assign_one. destruct (nth k (runs_asg mv L) RSkip); [exact Hx|apply self_assign_objs; exact Hx|].
+      cbn [fst]. apply self_wr. exact Hx. }
+    destruct (assign_one mv L sb db fl fl x k) as [x1 e1]. cbn [fst] in H1.
+    specialize (IH x1 H1). destruct (assign_all mv L sb db fl fl x1 ks) as [x2 e2]. exact IH.
+  Qed.
+
+  Lemma self_swap_wr m x a n : selfinv m x ->
+    selfinv m (wr_d (wr_s x a (mread (m_d x) a n)) a (mread (m_s x) a n)).
+  Proof.
+    intros (Hs & Hsd & Hm). unfold selfinv, wr_d, wr_s. cbn [m_s m_d m_same]. rewrite !Hs. cbn [m_s m_d m_same].
+    repeat split; intros z.
+    rewrite (mwrite_mread_at (m_s x) a _ a n z ltac:(lia)).
+    destruct (inr a (Z.of_nat n) z) eqn:E; [replace (z - a + a) with z by lia; rewrite Hsd; apply Hm|].
+    rewrite (mwrite_mread_at (m_d x) a (m_s x) a n z ltac:(lia)), E. rewrite Hsd. apply Hm.
+  Qed.
+
+  Lemma self_swap_objs p xb yb m : forall n x a, selfinv m x -> selfinv m (fst (swap_objs p xb yb x a a n)).
+  Proof.
+    induction n as [|n IH]; intros x a Hx; [exact Hx|]. cbn [swap_objs].
+    pose proof (self_swap_wr m x a (Z.to_nat (psz p)) Hx) as H1.
+    specialize (IH _ (a + psz p) H1).
+    destruct (swap_objs p xb yb _ (a + psz p) (a + psz p) n) as [x3 e3]. exact IH.
+  Qed.
+
+  Lemma self_swap_all L xb yb fl m : forall ks x, selfinv m x -> selfinv m (fst (swap_all L xb yb fl fl x ks)).
+  Proof.
+    induction ks as [|k ks IH]; intros x Hx; [exact Hx|]. cbn [swap_all].
+    assert (H1 : selfinv m (fst (swap_one L xb yb fl fl x k))).
+    { unfold swap_one. destruct (nth k (runs_swp L) RSkip); [exact Hx|apply self_swap_objs; exact Hx|].
+      cbn [fst]. apply self_swap_wr. exact Hx. }
+    destruct (swap_one L xb yb fl fl x k) as [x1 e1]. cbn [fst] in H1.
+    specialize (IH x1 H1). destruct (swap_all L xb yb fl fl x1 ks) as [x2 e2]. exact IH.
+  Qed.
+
+  Theorem self_assignment_changes_nothing mv L sb db fl m ks :
+    let x' := fst (assign_all mv L sb db fl fl {| m_s := m; m_d := m; m_same := true |} ks) in
+    (forall z, m_s x' z = m z) /\ (forall z, m_d x' z = m z).
+  Proof.
+    cbv zeta. destruct (self_assign_all mv L sb db fl m ks {| m_s := m; m_d := m; m_same := true |}) as (_ & H1 & H2).
+    - unfold selfinv. cbn [m_s m_d m_same]. auto.
+    - split; intros z; [rewrite H1|]; apply H2.
+  Qed.
+
+  Theorem self_swap_changes_nothing L xb yb fl m ks :
+    let x' := fst (swap_all L xb yb fl fl {| m_s := m; m_d := m; m_same := true |} ks) in
+    (forall z, m_s x' z = m z) /\ (forall z, m_d x' z = m z).
+  Proof.
+    cbv zeta. destruct (self_swap_all L xb yb fl m ks {| m_s := m; m_d := m; m_same := true |}) as (_ & H1 & H2).
+    - unfold selfinv. cbn [m_s m_d m_same]. auto.
+    - split; intros z; [rewrite H1|]; apply H2.
+  Qed.
+End Self.
